@@ -4,7 +4,7 @@ import json, subprocess
 from plans import PLANS, LEVEL
 
 HOOK_COMMITS = ["6653079"]
-FIX_COMMITS = ["3f74f98"]
+FIX_COMMITS = ["3f74f98", "e572c24", "f6fe648", "21e053f"]
 
 TEXT = {
     "C01": ("exploration", "DESIGN.md §3 C01",
@@ -31,6 +31,27 @@ TEXT.update({
     "C17": ("exploration", "DESIGN.md §3 C17",
             "Join/consume results are compared with the fold of the handler log of the final object; stamps decide that a Some is only returned after stopped() exited, at most once per actor, and that every join resolves once the actor task has ended.",
             "history oracle over join results vs. handler log"),
+})
+
+TEXT.update({
+    "C07": ("exploration", "DESIGN.md §3 C07",
+            "Incarnation-tagged callback/handler events are checked against a model of the three strategies (same value and carried state / fresh Default value and reset state / request ignored); every handled message must fall into the incarnation interval implied by the restart requests that definitely / possibly preceded it; on the virtual clock a timer registered in incarnation i must not fire after incarnation i+1 has started.",
+            "incarnation-interval oracle + strategy model + virtual-time firing check"),
+    "C10": ("exploration", "DESIGN.md §3 C10",
+            "On the virtual clock computation takes no time, so for idle actors the oracle demands deliveries at exactly t_reg + k*period (and nothing else) until the instant stopped() begins; for busy actors the lower bound; delayed timers at most once; nothing after the actor task ended; the executor's task census must show every timer task ended.",
+            "virtual-clock tick arithmetic + executor task census"),
+    "C11": ("exploration", "DESIGN.md §3 C11",
+            "Per-message work d and timeout t are drawn from a lattice including d = t-1, t, t+1; the oracle demands completion for d < t, abandonment at exactly entry + t with no later scripted effect and an error for the caller for d > t, then continuation with intact state or failed termination depending on fail_on_timeout; without timeout nothing is ever abandoned (d up to 1000 units).",
+            "virtual-clock boundary-value monitor over handler progress events"),
+    "C13": ("exploration", "DESIGN.md §3 C13",
+            "A harness stream with scripted readiness (empty, finite, never ready, ticking forever, bursts, always ready) logs every item it yields; the oracle demands the handled item sequence to equal the yielded one, messages in submission order, no abandoned invocation, finished+stopped+Ok on every termination cause incl. stop/drop on endless streams, and bounded progress after an accepted stop.",
+            "producer/consumer exactly-once-in-order monitor on a harness-controlled stream"),
+    "C14": ("exploration", "DESIGN.md §3 C14",
+            "stopped()/running() are sampled on Addr, clones and WeakAddr before and after termination for every cause under the four await histories (never / clone before / clone after / self); after the actor task ended every handle must say stopped; registry lookups after an un-awaited termination must hand out a live instance.",
+            "state-query monitor across await histories x termination causes"),
+    "C15": ("exploration", "DESIGN.md §3 C15",
+            "Programs leave every non-empty subset of {Addr, OwningAddr, Sender, Caller} alive; a per-kind reference model tells the oracle which strong kinds exist at each Context::stop / restart, weak upgrade and timer deadline, all of which must then succeed / fire; submissions through converted handles must be handled by the actor the handle was derived from.",
+            "per-kind reference-model monitor over context-operation, upgrade and tick events"),
 })
 
 NOT_YET = "check not built yet in this revision (planned, see DESIGN.md §3)"
